@@ -41,6 +41,21 @@ CHECKS = {
     "C08": ("model_checking", "DESIGN.md 5/C08", DEV_TECH + "; configurations rendered as TOML and parsed by the real config.ParseData",
             DEV_NOTE, "On/Off/Exclusive/OnlyConfigured/Pinned judged by TLC on tours over all position sequences of hat and stick "
             "axes (signed, unsigned, flipped, without negative note) with octave/channel actions between, and seeded random sequences."),
+    "C09": ("model_checking", "DESIGN.md 5/C09",
+            "TLA+ spec of the outcome relation (spec/ConfigFile.tla: Total); structured TOML texts (optional-field lattice, ill-typed "
+            "values, absent sections, spellings), seeded byte-level mutations of shipped and rendered files and hidi.toml variants are "
+            "parsed by the real ParseData / LoadHIDIConfig under a panic guard and watchdog; outcomes judged by TLC (spec/CaseTrace.tla)",
+            "the spec is a thin oracle here (outcome in {config, error}); the exploring is done by the structured enumeration and the mutation "
+            "driver; arbitrary byte strings are sampled, not exhausted",
+            "Totality of parsing: every generated input must yield a configuration or an error, never a panic or a hang."),
+    "C10": ("model_checking", "DESIGN.md 5/C10",
+            "TLA+ spec of the meaning of a configuration description and of what must be rejected (spec/ConfigFile.tla: Meaning, "
+            "MustReject); descriptions rendered to TOML in three spellings, parsed by the real ParseData, the returned Config "
+            "projected and compared by TLC (spec/CaseTrace.tla)",
+            "trusted: TLC, the renderer lib/cfggen.py. Acceptance of a valid description is not demanded (statement is conditional); "
+            "accepted valid cases are counted so the faithful branch is not vacuous",
+            "Faithful (per area: keys, analog, actions, exit, mode, defaults, colours, dead-zones, identifier), InRange and Rejects (per "
+            "reason) judged on seeded structured descriptions and every single-field invalidation of each."),
     "C11": ("model_checking", "DESIGN.md 5/C11",
             "TLA+ spec of the name<->number bijection (spec/NoteNames.tla, model-level ASSUMEs checked by TLC); the real StringToNote is "
             "run on every string of the exhaustive space and the logged cases are judged by TLC (spec/CaseTrace.tla)",
